@@ -26,6 +26,15 @@ func ZZ_C13_Group() {
 	vfSetPreemptions(vfConfig("PRE", 1))
 	N := vfConfig("CALLERS", 2)
 	g := NewGroup[uint64, uint64]()
+	// an earlier, finished round on the same group (its call record goes back to the pool with whatever it holds)
+	if pre := vfChoose("preRound", 3); pre > 0 {
+		_, _, _ = g.Do(1, func() (uint64, error) {
+			if pre == 1 {
+				return 0, zzErrLoad
+			}
+			return 55, nil
+		})
+	}
 	outcome := vfChoose("outcome", 4)
 	vfNote("outcome", int64(outcome))
 	running, invocations := 0, 0
